@@ -58,6 +58,19 @@ func init() {
 		"strings.Split":         extStringsSplit,
 		"strings.TrimSpace":     extStringsTrimSpace,
 		"strings.TrimRightFunc": extStringsTrimRightFunc,
+		"strings.TrimSuffix":    func(fr *frame, a []value) value { return strings.TrimSuffix(concStr(fr, a[0]), concStr(fr, a[1])) },
+		"strings.TrimPrefix":    func(fr *frame, a []value) value { return strings.TrimPrefix(concStr(fr, a[0]), concStr(fr, a[1])) },
+		"strings.TrimLeft":      func(fr *frame, a []value) value { return strings.TrimLeft(concStr(fr, a[0]), concStr(fr, a[1])) },
+		"strings.TrimRight":     func(fr *frame, a []value) value { return strings.TrimRight(concStr(fr, a[0]), concStr(fr, a[1])) },
+		"strings.Trim":          func(fr *frame, a []value) value { return strings.Trim(concStr(fr, a[0]), concStr(fr, a[1])) },
+		"strings.LastIndex":     func(fr *frame, a []value) value { return strings.LastIndex(concStr(fr, a[0]), concStr(fr, a[1])) },
+		"strings.Fields": func(fr *frame, a []value) value {
+			var out []value
+			for _, f := range strings.Fields(concStr(fr, a[0])) {
+				out = append(out, f)
+			}
+			return out
+		},
 		"strings.Contains":      func(fr *frame, a []value) value { return strings.Contains(concStr(fr, a[0]), concStr(fr, a[1])) },
 		"strings.HasPrefix":     func(fr *frame, a []value) value { return strings.HasPrefix(concStr(fr, a[0]), concStr(fr, a[1])) },
 		"strings.HasSuffix":     func(fr *frame, a []value) value { return strings.HasSuffix(concStr(fr, a[0]), concStr(fr, a[1])) },
